@@ -149,7 +149,10 @@ class ExprMixin:
         return Closure(n, self.env)
 
     def e_IfExp(self, n):
-        t = self.ctx.truth(self.eval(n.test))
+        tv = self.eval(n.test)
+        if isinstance(tv, Opaque):
+            return self.eval(n.body) if self.ctx.decide_opaque("ifexp") else self.eval(n.orelse)
+        t = self.ctx.truth(tv)
         if isinstance(t, bool):
             return self.eval(n.body if t else n.orelse)
         if self.ctx.spec or self.ctx.guards:
@@ -183,6 +186,12 @@ class ExprMixin:
         if b is None and ta is not None:
             ty = ta if ta.name == "Opt" else TOpt(ta)
             return SV(ty, z3.If(cond, ctx.term(a, ty), ctx.term(b, ty)))
+        if isinstance(a, Cell) and isinstance(b, Cell) and a.kind == b.kind and (ta is None) != (tb is None):
+            # an empty literal container takes the type of the other branch
+            if ta is None and a.sym is None and not a.conc:
+                ta = tb
+            elif tb is None and b.sym is None and not b.conc:
+                tb = ta
         if ta is not None and tb is not None:
             if ta != tb:
                 if ta.name == "Opt" and ta.args[0] == tb:
@@ -213,6 +222,11 @@ class ExprMixin:
             result = None
             for k, sub in enumerate(n.values):
                 v = self.eval(sub)
+                if isinstance(v, Opaque) or (isinstance(v, Cell) and getattr(v, "unknown", False)):
+                    # unknown operand: evaluate the rest for their effects and obligations, result unknown
+                    for rest in n.values[k + 1:]:
+                        self.eval_tolerant(rest)
+                    return Opaque("boolop", fresh=True)
                 last = k == len(n.values) - 1
                 if last:
                     vals.append((v, None))
@@ -256,9 +270,17 @@ class ExprMixin:
             x, y = ctx.truth(a), ctx.truth(b)
             return SV(BOOL, z3.If(t, ctx.zbool(x), ctx.zbool(y)))
 
+    def eval_tolerant(self, node):
+        try:
+            return self.eval(node)
+        except Unsupported:
+            return Opaque("unsupported", fresh=True)
+
     def e_UnaryOp(self, n):
         v = self.eval(n.operand)
         ctx = self.ctx
+        if isinstance(v, Opaque):
+            return Opaque("unary", fresh=True)
         if isinstance(n.op, ast.Not):
             t = ctx.truth(v)
             return (not t) if isinstance(t, bool) else SV(BOOL, z3.Not(t))
@@ -363,6 +385,11 @@ class ExprMixin:
         try:
             for op, rn in zip(n.ops, n.comparators):
                 right = self.eval(rn)
+                if isinstance(left, Opaque) or isinstance(right, Opaque) or getattr(left, "unknown", False) \
+                        or getattr(right, "unknown", False):
+                    if (left is None or right is None) and isinstance(op, (ast.Is, ast.IsNot)):
+                        pass        # `x is None` on an unknown value: unknown as well
+                    return Opaque("compare", fresh=True)
                 r = self.compare(op, left, right)
                 if res is None:
                     res = r
